@@ -33,7 +33,7 @@ class C03(Engine):
             "(every writer->reader pair does) with at least two segments or a stale file present.")
     assumptions = [".org and .db with literal byte values are trusted to place bytes (the only assumption about the assembler proper)",
                    "elf/uf2/bin serialise the whole span: extra decoded addresses must lie inside the span/padding and hold 0",
-                   "wdc is only asked to carry addresses < 2^24 and S-records only addresses their record size can express",
+                   "wdc is only asked to carry addresses < 2^24, and S-records of a CPU with fixed 24-bit records only addresses < 2^24",
                    "uf2 blocks of another familyID (the RP2350 0x10ffff00 filler) are ignored as the UF2 specification tells a boot loader to"]
 
     def directed(self):
@@ -47,7 +47,9 @@ class C03(Engine):
                 "exports": img["exports"], "formats": fmts,
                 "stale": rng.pick([0, 0, 100, 5000, 200000]), "clock0": 1000000000 + rng.below(10 ** 9),
                 "chunk_seed": rng.u64() if rng.chance(1, 3) else 0,
-                "flags": rng.subset(["-l", "-q"], 1, 4)}
+                "flags": rng.subset(["-l", "-q"], 1, 4),
+                # where the source lives must not matter to what the file carries (ELF stores the name)
+                "srcpath": rng.pick(["a.asm", "a.asm", "src/a.asm", "./a.asm", "/sim/w/deep/dir/prog.asm", "../w/a.asm", "x/../a.asm"])}
 
     def run(self, ex, plan):
         res = RunResult()
@@ -67,16 +69,20 @@ class C03(Engine):
             if fmt == "wdc" and hi >= (1 << 24):
                 res.probe("skipped_wdc_above_24_bits")
                 continue
-            srec_bits = {"SREC_16": 16, "SREC_24": 24, "SREC_32": 32}[info["srec"]]
+            # SREC_16 means "record size chosen per line from the address" (S1/S2/S3), not a 16-bit limit
+            srec_bits = {"SREC_16": 32, "SREC_24": 24, "SREC_32": 32}[info["srec"]]
             if fmt == "srec" and hi >= (1 << srec_bits):
                 res.probe("skipped_srec_above_record_size")
                 continue
             out = "/sim/w/out." + fmt
-            files = {"/sim/w/a.asm": src}
+            srcpath = plan.get("srcpath", "a.asm")
+            files = {(srcpath if srcpath.startswith("/") else "/sim/w/" + srcpath): src}
+            if "x/.." in srcpath:
+                files["/sim/w/x/.keep"] = b""
             if plan["stale"]:
                 files[out] = b"\xa5" * plan["stale"]
             env = {"clock0": plan["clock0"], "chunk_seed": plan["chunk_seed"], "event_ceiling": 50000000}
-            o = ex.call(build_request(MODE_ASM, ["naken_asm"] + plan["flags"] + ["-type", fmt, "-o", "out." + fmt, "a.asm"],
+            o = ex.call(build_request(MODE_ASM, ["naken_asm"] + plan["flags"] + ["-type", fmt, "-o", "out." + fmt, srcpath],
                                       files, env=env, cpu_ms=10000))
             res.absorb(o)
             digests.append(o.digest())
